@@ -2,7 +2,7 @@
 # tools/trymut.sh <file under repo> <line> <from> <to> <props...> : one-line mutation in the reseed lane, run quick checks
 set -u
 F="$1"; L="$2"; A="$3"; B="$4"; shift 4
-LANE=/var/tmp/reseed
+LANE=/var/tmp/reseed; mkdir -p $LANE
 rsync -a --delete --exclude target --exclude .git /repo/ $LANE/repo/
 rsync -a --delete --exclude target --exclude .git --exclude evidence --exclude seeded /verif/ $LANE/verif/
 mkdir -p $LANE/verif/evidence
